@@ -54,12 +54,17 @@ def _memo(deck):
 
 def _enc(v):
     if isinstance(v, _dt.datetime):
-        return {"dt": [v.year, v.month, v.day, v.hour, v.minute, v.second, v.microsecond]}
+        d = {"dt": [v.year, v.month, v.day, v.hour, v.minute, v.second, v.microsecond]}
+        if v.tzinfo is not None:
+            d["tz"] = int(v.utcoffset().total_seconds() // 60)
+        return d
     return v
 
 
 def _dec(v):
     if isinstance(v, dict) and "dt" in v:
+        if v.get("tz") is not None:
+            return seams._real_datetime(*v["dt"], tzinfo=_dt.timezone(_dt.timedelta(minutes=v["tz"])))
         return seams._real_datetime(*v["dt"])
     return v
 
@@ -70,6 +75,13 @@ def _same(prop, want, got):
             return want is got
         if not isinstance(got, seams._real_datetime):
             return False
+        if want.tzinfo is not None:
+            # a time-zone-aware datetime is "any datetime" too: what comes back is its wall-clock reading or the same instant in UTC
+            # (the statement does not choose), to one second
+            wall = want.replace(tzinfo=None)
+            utc = (want - want.utcoffset()).replace(tzinfo=None)
+            g = got.replace(tzinfo=None) if got.tzinfo is None else (got - got.utcoffset()).replace(tzinfo=None)
+            return min(abs((g - wall).total_seconds()), abs((g - utc).total_seconds())) < 1.0
         return abs((got.replace(tzinfo=None) - want).total_seconds()) < 1.0
     return want == got and type(want) is type(got)
 
@@ -142,8 +154,11 @@ def g_datetime(r):
         m, d = r.choice([(2, 29), (12, 31), (1, 1)])
         if (m, d) == (2, 29):
             y = r.choice([2000, 2004, 2024, 1600, 4])
-    return {"dt": [y, m, d, r.choice([0, 23, r.randint(0, 23)]), r.choice([0, 59, r.randint(0, 59)]),
-                   r.choice([0, 59, r.randint(0, 59)]), r.choice([0, 0, 999999, 500000, r.randint(0, 999999)])]}
+    out = {"dt": [y, m, d, r.choice([0, 23, r.randint(0, 23)]), r.choice([0, 59, r.randint(0, 59)]),
+                  r.choice([0, 59, r.randint(0, 59)]), r.choice([0, 0, 999999, 500000, r.randint(0, 999999)])]}
+    if r.random() < 0.2 and 2 <= y <= 9998:
+        out["tz"] = r.choice([0, 0, 60, -300, 330, 840, -720, r.randint(-840, 840)])     # time-zone-aware (datetime.now(timezone.utc) is the common case)
+    return out
 
 
 def g_set(r):
@@ -325,7 +340,7 @@ def g_stored(r):
             lex = "%04d-%02d-%02dT%02d:%02d:%02d%s" % (y, mo, d, h, mi, s, tzs)
             want = seams._real_datetime(y, mo, d, h, mi, s) - _dt.timedelta(minutes=off_min)
         else:
-            frac = r.choice(["3", "30", "123", "999999", "0"])
+            frac = r.choice(["3", "30", "123", "999999", "0", "1234567", "000000001", "9999999999"])   # .NET writes 7 digits
             lex = "%04d-%02d-%02dT%02d:%02d:%02d.%s%s" % (y, mo, d, h, mi, s, frac, tzs)
             want = seams._real_datetime(y, mo, d, h, mi, s) - _dt.timedelta(minutes=off_min)
         judged = tzs not in ("",) or form in ("year", "month", "day", "second")
